@@ -17,8 +17,6 @@ import (
 	"time"
 
 	"github.com/bmeg/grip/gripql"
-	"google.golang.org/grpc/codes"
-	"google.golang.org/grpc/status"
 	"google.golang.org/protobuf/types/known/structpb"
 	"pgregory.net/rapid"
 	"verif/internal/live"
@@ -190,6 +188,8 @@ func runCase(t pbt.TB, c Case) {
 		wr := false
 		for _, op := range s {
 			switch op.Kind {
+			case "churn": // contends for the shared label index
+				wr, shared = true, true
 			case "putV", "putE", "delV", "delE", "bulk":
 				wr = true
 			case "addGraph", "delGraph", "addSchema", "getSchema", "submit", "getJob", "addSchemaOwn", "getSchemaOwn", "addIndex", "delIndex", "listJobs", "searchJobs", "resumeJob":
@@ -265,10 +265,36 @@ func runCase(t pbt.TB, c Case) {
 								lastBySession[id] = map[int]write{}
 							}
 							lastBySession[id][si] = write{deleted: true, session: si}
-						} else if status.Code(err) == codes.DeadlineExceeded || status.Code(err) == codes.Canceled || status.Code(err) == codes.Unavailable {
+						} else if !strings.Contains(err.Error(), "not found") {
+							// refused or cut short: whether it was applied is not known
 							uncertain[id] = true
 						}
 						mu.Unlock()
+					case "churn": // op.N private vertices of the shared label, each written and deleted at once
+						for i := 0; i < op.N; i++ {
+							id := fmt.Sprintf("p%d-%s%d", si, op.ID, i)
+							mu.Lock()
+							if written[id] == nil {
+								written[id] = map[float64]bool{}
+							}
+							written[id][op.Val] = true
+							mu.Unlock()
+							c2, cancel2 := context.WithTimeout(ctx, 30*time.Second)
+							_, aerr := wk.Srv.Edit.AddVertex(c2, &gripql.GraphElement{Graph: g, Vertex: vtx(id, op.Val, si)})
+							_, derr := wk.Srv.Edit.DeleteVertex(c2, &gripql.ElementID{Graph: g, Id: id})
+							cancel2()
+							mu.Lock()
+							switch {
+							case derr == nil:
+								lastBySession[id] = map[int]write{si: {deleted: true, session: si}}
+							case aerr == nil && strings.Contains(derr.Error(), "Conflict"):
+								// the delete was refused and says so: the acknowledged write stands
+								lastBySession[id] = map[int]write{si: {val: op.Val, session: si}}
+							default:
+								uncertain[id] = true
+							}
+							mu.Unlock()
+						}
 					case "putP": // private vertex
 						id := fmt.Sprintf("p%d-%s", si, op.ID)
 						mu.Lock()
@@ -576,6 +602,30 @@ var cycles = [][]string{
 	{"addGraph", "addSchemaOwn", "getSchemaOwn", "delGraph"},
 	{"submit", "getJob", "listJobs", "viewJob", "resumeJob", "searchJobs", "delJob"},
 	{"addIndex", "putV", "listIndices", "delIndex"},
+}
+
+// TestContention: every session writes and deletes many private vertices of the one shared
+// label as fast as it can, so that the storage transactions of different clients overlap
+// all the time (each touches the shared label index). Whatever the store does about the
+// overlap, an acknowledged delete must be in the final graph and so must an acknowledged
+// write whose delete was refused.
+func TestContention(t *testing.T) {
+	pbt.Check(t, 8, 160, func(rt *rapid.T) {
+		ns := rapid.IntRange(4, 8).Draw(rt, "sessions")
+		c := Case{Repeat: 1}
+		for s := 0; s < ns; s++ {
+			ops := []Op{{Kind: "churn", ID: "c", Val: float64(rapid.IntRange(1, 1000).Draw(rt, fmt.Sprintf("s%d.val", s))), N: rapid.IntRange(60, 260).Draw(rt, fmt.Sprintf("s%d.n", s))}}
+			if rapid.Bool().Draw(rt, fmt.Sprintf("s%d.reads", s)) {
+				ops = append(ops, Op{Kind: "query"}, Op{Kind: "listLabels"})
+			}
+			c.Sessions = append(c.Sessions, ops)
+		}
+		pbt.Class(rt, "contention-burst")
+		if pbt.WantSample(rt) {
+			pbt.Sample(rt, c)
+		}
+		runCase(rt, c)
+	})
 }
 
 func TestSessions(t *testing.T) {
